@@ -6,14 +6,19 @@ Statement, sentence by sentence, and where it is covered:
 * "succeeds only for a known store type and a plain file-name store name, only if the store is a
   real directory (not a symlink) whose every entry is a regular file (no sub-directories, no
   symlinks) holding one or more parseable certificates that are CA or self-signed - and, for tsa
-  stores, self-signed roots": clause 1 of `Holds` (`o.ok == loadable i`), theorems `load_ok_iff`,
+  stores, self-signed roots": clauses 1 and 2 of `Holds` (`o.ok → loadable i`, `loadable i → o.ok` under a live context), theorems `load_ok_iff`,
   `isValidFileName_iff`, `valid_name_is_one_path_element`.
 * "the named store": the directory addressed is truststore/x509/<type>/<name> and nothing else -
   the `storePath` clause, theorem `store_path_exact`.
 * "It then returns exactly the certificates of those files and nothing from anywhere else":
-  clauses 2 and 3, theorems `load_exact`, `load_exact_perm`, `nothing_from_elsewhere`.
+  clauses 3 and 4, theorems `load_exact`, `load_exact_perm`, `nothing_from_elsewhere`.
 * "in every other situation, including an empty store, it fails as a whole rather than
-  returning a partial set": clauses 1 and 4, theorems `no_partial`, `empty_store_fails`.
+  returning a partial set": clauses 1 and 5, theorems `no_partial`, `empty_store_fails`.
+* Context dimension (`Input.ctx`): whatever the caller's context does during the call, a success
+  is the complete set of a loadable store and a failure returns nothing (clauses 1, 3, 5 do not
+  look at the context); only clause 2 ("a loadable store loads") is waived when the context can
+  end - an error because the caller gave up is fine. Theorems `context_irrelevant`,
+  `never_partial_whatever_context`; fact `context_unused_pinned`.
 Out of scope (not in the property's quantifier): entries that are neither regular files,
 directories nor symlinks (fifos, sockets, devices), unreadable files, I/O errors.
 -/
@@ -44,6 +49,10 @@ theorem root_pinned : Facts.c13RootCheckedTypes = ["tsa"] := by decide
 theorem checks_before_file_system :
     "isValidStoreType" ∈ Facts.c13ChecksBeforeFileSystem ∧
     "file.IsValidFileName" ∈ Facts.c13ChecksBeforeFileSystem := by decide
+
+/-- `GetCertificates` never consults its context (no method call on it, not handed on), which is
+why the model's `run` does not depend on `Input.ctx` (`context_irrelevant`) -/
+theorem context_unused_pinned : Facts.c13ContextUses = [] := by decide
 
 /-- the store path is `truststore/x509/<type>/<name>` -/
 theorem store_dir_prefix_pinned : Facts.c13StoreDirPrefix = ["truststore", "x509"] := by decide
@@ -508,6 +517,21 @@ theorem model_holds (i : Input) : Holds i (run i) = true := by
           (by rw [isValidFileName_eq_plainName]; exact hn)).2
         simp [this]
 
+/-- **C13, the context does not matter**: whatever the context does - never ends, has ended
+before the call, ends at any poll, expires at any moment - the load gives the same answer; in
+particular (with `load_exact`, `no_partial`) the context can never turn a complete set into a
+partial one or hide a bad entry. -/
+theorem context_irrelevant (i : Input) (c : CtxSpec) : run { i with ctx := c } = run i := by
+  cases hop : i.op <;> simp [run, hop, getCertificates]
+
+/-- success is the complete set and failure is empty under every context -/
+theorem never_partial_whatever_context (i : Input) (c : CtxSpec) (h : i.op = .load) :
+    ((run { i with ctx := c }).ok = true →
+        loadable i = true ∧ (run { i with ctx := c }).certs = expectedIds i) ∧
+    ((run { i with ctx := c }).ok = false → (run { i with ctx := c }).certs = []) := by
+  rw [context_irrelevant, run_load i h]
+  cases hl : loadable i <;> simp
+
 /-- **C13, load_ok_iff**: loading succeeds exactly when the type is one of the three known types,
 the name is a valid file name, the store path is a real directory, the store is not empty and
 every entry is a regular file with at least one parseable certificate, each of them a CA or
@@ -663,7 +687,8 @@ def leaf (id : Nat) : CertFlags := { id := id, isCA := false, selfSig := false, 
 def pemFile (n : String) (cs : List CertFlags) : Entry :=
   { name := n.toList, kind := .file, parseOk := true, certs := cs, enc := "pem" }
 def store (t : String) (n : String) (es : List Entry) : Input :=
-  { op := .load, storeType := t, name := n.toList, dirKind := .dir, entries := es, decoys := false }
+  { op := .load, storeType := t, name := n.toList, dirKind := .dir, entries := es, decoys := false,
+    ctx := { kind := .background, n := 0, deadline := false } }
 
 /-- a store with two files created in reverse name order loads in name order -/
 example : run (store "ca" "acme.roots" [pemFile "b.pem" [interCA 2, rootCA 3], pemFile "a.pem" [rootCA 1]]) =
@@ -696,6 +721,21 @@ example : Holds { store "ca" "s" [pemFile "a.pem" [rootCA 1]] with dirKind := .s
 example : Holds (store "ca" "s" [pemFile "a.pem" [rootCA 1], pemFile "b.pem" [rootCA 2]])
     { ok := true, certs := [1, 2], path := [] } = true := by decide
 
+
+/-- the context dimension: a context that ends at its second poll does not excuse a partial set
+(first file only) nor a success over a later bad entry; failing the loadable store with an error
+is tolerated under an ending context and only there -/
+def endsAt (k : Nat) : CtxSpec := { kind := .endsAtPoll, n := k, deadline := false }
+example : Holds { store "ca" "s" [pemFile "a.pem" [rootCA 1], pemFile "b.pem" [rootCA 2]] with ctx := endsAt 1 }
+    { ok := true, certs := [1], path := [] } = false := by decide
+example : Holds { store "ca" "s" [pemFile "a.pem" [rootCA 1], pemFile "b.pem" [leaf 2]] with ctx := endsAt 1 }
+    { ok := true, certs := [1], path := [] } = false := by decide
+example : Holds { store "ca" "s" [pemFile "a.pem" [rootCA 1], pemFile "b.pem" [rootCA 2]] with ctx := endsAt 1 }
+    { ok := false, certs := [1], path := [] } = false := by decide
+example : Holds { store "ca" "s" [pemFile "a.pem" [rootCA 1], pemFile "b.pem" [rootCA 2]] with ctx := endsAt 1 }
+    { ok := false, certs := [], path := [] } = true := by decide
+example : Holds (store "ca" "s" [pemFile "a.pem" [rootCA 1], pemFile "b.pem" [rootCA 2]])
+    { ok := false, certs := [], path := [] } = false := by decide
 
 /-- the store path of a proper name, and what the rejected names would have addressed: the type
 directory itself, its parent, a store of another type -/
